@@ -111,7 +111,7 @@ def verify_contract(qn, timeout_ms, only_variant=None):
     from .contracts import Shape
     program, contracts = load_all()
     con = contracts[qn]
-    f = program.resolve(qn)
+    f = getattr(con, "func_obj", None) or program.resolve(qn)
     out = {"qualname": qn, "obligations": [], "paths": 0, "fault": None, "assumptions": set(), "unsupported": None,
            "segment": None, "inlined": set(), "contract_calls": set(), "raised_kinds": set()}
     if f is None:
@@ -125,10 +125,12 @@ def verify_contract(qn, timeout_ms, only_variant=None):
         if only_variant is not None and vi != only_variant:
             continue
         eng = Engine()
+        eng.no_feasibility = bool(con.frame_only)
         obs = []
 
         def run(path):
             ip = Interp(path, program, contracts, verifying=qn)
+            ip.frame_only = ip.opaque_objects = bool(con.frame_only)
             try:
                 _run_one(ip, path, con, f, node, variant, vi)
             finally:
@@ -142,6 +144,11 @@ def verify_contract(qn, timeout_ms, only_variant=None):
             return out
         except RecursionError:
             out["unsupported"] = "interpreter recursion limit"
+            return out
+        except RuntimeError as e:
+            if "path explosion" not in str(e):
+                raise
+            out["unsupported"] = f"more than {eng.max_paths} paths (undecided, not a violation)"
             return out
         out["paths"] += len(paths)
         for pi, p in enumerate(paths):
@@ -442,12 +449,22 @@ def _run_one(ip, path, con, f, node, variant, vi):
     path.param_recipes = {k: _recipe(ip, v) for k, v in env.items()}
     # modifies clause: which pre-existing objects may be written
     for m in con.modifies:
-        pname, attr = m.split(".", 1)
+        pname = m.split(".", 1)[0]
         o = env.get(pname)
         if isinstance(o, SObj):
-            ip.modifies_ok.add((o.oid, attr))
-        elif isinstance(o, LList):
+            ip.modifies_ok.add((o.oid, m.split(".", 1)[1] if "." in m else "*"))
+        elif o is not None:
+            if "." not in m and isinstance(o, Z):
+                # a parameter the function may modify (deeply): treated like a fresh deep copy inside the body
+                from .builtins_model import FreshZ
+                o2 = FreshZ(o.t, o.cls, True)
+                env[pname] = o2
+                args[:] = [o2 if a is o else a for a in args]
+                kwargs.update({k: o2 for k, v2 in kwargs.items() if v2 is o})
+                o = o2
             ip.modifies_ok.add(id(o))
+            if "." in m and isinstance(o, Z):
+                ip.modifies_ok.add(("zattr", o.t.get_id(), m.split(".", 1)[1]))
     if con.requires is not None:
         path.assume(clause_bool(ip, con.requires, env, f"{qn}#requires", mode="assume"))
     old = LDict([(C(k), v) for k, v in env.items()])
@@ -474,7 +491,7 @@ def _run_one(ip, path, con, f, node, variant, vi):
         if callable(c):
             path.oblige(f"{qn}#raises[{k}]-whenever", z3.Not(clause_bool(ip, c, env, f"{qn}#raises[{k}]")), kind="raises",
                         info={"expected": k})
-    if con.ensures is not None:
+    if con.ensures is not None and not con.frame_only:
         env2 = dict(env)
         env2["result"] = result
         env2["old"] = old
@@ -506,16 +523,97 @@ def _call_with_symbolic_star(ip, f, node, env):
 
 
 # ----------------------------------------------------------------------------------------------- property level
+class _Budget(Exception):
+    pass
+
+
+def _alarm(sig, frm):
+    raise _Budget()
+
+
 def _worker(args):
+    import signal
     qn, vi, timeout_ms = args
+    budget = int(os.environ.get("PYVC_FUNCTION_BUDGET_S", "60" if timeout_ms <= 10000 else "900"))
+    signal.signal(signal.SIGALRM, _alarm)
+    signal.alarm(budget)
     try:
         r = verify_contract(qn, timeout_ms, vi)
+    except _Budget:
+        program, contracts = load_all()
+        f = getattr(contracts[qn], "func_obj", None) or program.resolve(qn)
+        return {"qualname": qn, "obligations": [], "paths": 0, "fault": None, "assumptions": [], "inlined": [],
+                "contract_calls": [], "segment": program.segment(f) if f else None,
+                "unsupported": f"exploration budget of {budget}s exceeded (undecided, not a violation)"}
     except Exception:
         return {"qualname": qn, "obligations": [], "paths": 0, "fault": traceback.format_exc(), "assumptions": [],
                 "unsupported": None, "segment": None, "inlined": [], "contract_calls": []}
+    finally:
+        signal.alarm(0)
     for k in ("assumptions", "inlined", "contract_calls", "raised_kinds"):
         r[k] = sorted(r.get(k, []))
     return r
+
+
+def _child(conn, task):
+    try:
+        conn.send(_worker(task))
+    except Exception:
+        conn.send({"qualname": task[0], "obligations": [], "paths": 0, "fault": traceback.format_exc(), "assumptions": [],
+                   "unsupported": None, "segment": None, "inlined": [], "contract_calls": []})
+    finally:
+        conn.close()
+
+
+def _run_tasks(ctx, tasks, timeout_ms, width=16):
+    """One process per (function, variant), at most `width` at a time; a process that overruns its budget (z3 can
+    ignore its timeout inside recursive-function propagation) is killed and the function reported as undecided."""
+    budget = int(os.environ.get("PYVC_FUNCTION_BUDGET_S", "60" if timeout_ms <= 10000 else "900"))
+    pending = list(enumerate(tasks))
+    running, results = [], {}
+    while pending or running:
+        while pending and len(running) < width:
+            i, t = pending.pop(0)
+            a, b = ctx.Pipe(duplex=False)
+            p = ctx.Process(target=_child, args=(b, t))
+            p.start()
+            b.close()
+            running.append((i, t, p, a, time.time()))
+        still = []
+        for (i, t, p, a, t0) in running:
+            if a.poll(0):
+                try:
+                    results[i] = a.recv()
+                except EOFError:
+                    results[i] = None
+                p.join(5)
+                continue
+            if not p.is_alive():
+                results[i] = None
+                continue
+            if time.time() - t0 > budget + 20:
+                p.terminate()
+                p.join(2)
+                if p.is_alive():
+                    p.kill()
+                results[i] = "killed"
+                continue
+            still.append((i, t, p, a, t0))
+        running = still
+        if running:
+            time.sleep(0.05)
+    out = []
+    program, contracts = load_all()
+    for i, t in enumerate(tasks):
+        r = results.get(i)
+        if r is None or r == "killed":
+            f = getattr(contracts[t[0]], "func_obj", None) or program.resolve(t[0])
+            r = {"qualname": t[0], "obligations": [], "paths": 0, "fault": None, "assumptions": [], "inlined": [],
+                 "contract_calls": [], "segment": program.segment(f) if f else None,
+                 "unsupported": ("solver did not return within the function budget (process killed); undecided"
+                                 if r == "killed" else "worker process ended without a result; undecided")}
+        out.append(r)
+    return out
 
 
 def run_property(prop, tier, seed):
@@ -530,8 +628,7 @@ def run_property(prop, tier, seed):
     for qn in mine:
         nv = len(contracts[qn].variants or [{}])
         tasks += [(qn, vi if nv > 1 else None, timeout_ms) for vi in range(nv)]
-    with ctx.Pool(min(16, len(tasks))) as pool:
-        parts = pool.map(_worker, tasks, chunksize=1)
+    parts = _run_tasks(ctx, tasks, timeout_ms)
     merged = {}
     for r in parts:
         m = merged.get(r["qualname"])
@@ -573,7 +670,7 @@ def summarise(prop, tier, results, wall, contracts):
         for ob in r["obligations"]:
             if ob["kind"] == "canary":
                 canaries[ob["status"]] = canaries.get(ob["status"], 0) + 1
-                if ob["status"] == "dead":
+                if ob["status"] == "dead" and not contracts[r["qualname"]].frame_only:
                     faults.append(f"vacuity: canary of {ob['name']} is provable (contradictory assumptions)")
                 continue
             n_ob += 1
@@ -592,6 +689,9 @@ def summarise(prop, tier, results, wall, contracts):
                                "solver_s": ob["solver_s"], "replay": rp, "replayed": bool(rp.get("reproduced"))})
             else:
                 undecided.append({"obligation": ob["name"], "reason": ob["reason"]})
+        cs = [o["status"] for o in r["obligations"] if o["kind"] == "canary"]
+        if cs and not any(c in ("alive", "canary-unknown") for c in cs):
+            faults.append(f"vacuity: no path of {r['qualname']} reaches its end (all canaries provable)")
         fn["obligations"] = len([o for o in r["obligations"] if o["kind"] != "canary"])
         fn["failed"] = nf
         functions.append(fn)
